@@ -10,6 +10,7 @@ From stdpp Require Import sorting.
 From incr Require Import Base Heap HeapSpec HeapProofs EngineDefs Engine EngineRun EngineWf Spec
      EngineLemmas EngineInv EngineInvProofs PassInv PassProofs PassBind PassBindProofs PassBindSwap
      PassBindSwapProofs.
+From incr Require EngineLocal.
 
 Local Ltac inv H := inversion H; subst; clear H.
 Local Arguments valueOf : simpl never.
@@ -1661,6 +1662,249 @@ Proof.
     apply (chain_in s n b0 t d E). apply IH. apply (bw_has_lhs _ _ _ (Hbw b0 r Hr)).
 Qed.
 
+(** ** the handler set: only tearing a node down withdraws a queued handler *)
+Definition HS (s s' : state) : Prop := handlers s' = handlers s.
+Lemma HS_eq s s' : handlers s' = handlers s -> HS s s'. Proof. auto. Qed.
+Lemma HS_refl s : HS s s. Proof. reflexivity. Qed.
+Lemma HS_trans s1 s2 s3 : HS s1 s2 -> HS s2 s3 -> HS s1 s3.
+Proof. unfold HS. congruence. Qed.
+Lemma HS_oh s s' : only_heap s s' -> HS s s'. Proof. intros O. apply (oh_handlers _ _ O). Qed.
+Lemma HS_bn s s' : bn_frame s s' -> HS s s'. Proof. intros F. apply (bf_handlers _ _ F). Qed.
+
+Lemma HS_efold {A} (f : state -> A -> M) l : (forall s a s' e, f s a = Ok (s', e) -> HS s s') ->
+  forall s s' e, efold f l s = Ok (s', e) -> HS s s'.
+Proof.
+  intros Hf. induction l as [|a l IH]; intros s s' e H; simpl in H.
+  - apply ok_inv in H as [-> _]. apply HS_refl.
+  - apply ebind_inv in H as (s1 & e1 & E1 & [[-> H]|(_ & -> & _)]).
+    + eapply HS_trans; [eapply Hf; eauto|eapply IH; eauto].
+    + eapply Hf; eauto.
+Qed.
+
+Lemma HS_setHeight s n h s' e : setHeight s n h = Ok (s', e) -> HS s s'.
+Proof.
+  intros H. apply setHeight_inv in H as [(_ & -> & _)|(_ & _ & ->)]; [apply HS_refl|].
+  apply HS_eq. destruct (h >? a_maxSeen (adj s)); reflexivity.
+Qed.
+
+Lemma HS_adjAdd s n s' : adjAdd s n = Ok s' -> HS s s'.
+Proof.
+  unfold adjAdd. destruct (negb _); [intros [= <-]; apply HS_refl|].
+  destruct (height (nd s n) <? 0); [discriminate|]. destruct (_ !! _); [|discriminate].
+  intros [= <-]. apply HS_eq. reflexivity.
+Qed.
+
+Lemma HS_adjRemoveMin s r s' : adjRemoveMin s = Ok (r, s') -> HS s s'.
+Proof.
+  unfold adjRemoveMin. destruct (_ =? 0); [intros [= <- <-]; apply HS_refl|].
+  destruct (_ <? 0); [discriminate|]. destruct (adjScan _ _ _) as [[[x n] b']|]; [|intros [= <- <-]; apply HS_refl].
+  intros [= <- <-]. apply HS_eq. reflexivity.
+Qed.
+
+Lemma HS_ensure s o c p s' e : ensureHeightRequirement s o c p = Ok (s', e) -> HS s s'.
+Proof.
+  unfold ensureHeightRequirement. destruct (bool_decide _); [intros [-> _]%fail_inv; apply HS_refl|].
+  destruct (_ >=? _); [|intros [-> _]%ok_inv; apply HS_refl].
+  intros H. apply ebind_inv in H as (s1 & e1 & E1 & [[-> H]|(_ & -> & _)]).
+  - apply lift_inv in E1 as [E1 _]. eapply HS_trans; [eapply HS_adjAdd; eauto|eapply HS_setHeight; eauto].
+  - unfold lift in E1. destruct (adjAdd s c) as [s2| |] eqn:Ea; simpl in E1; try discriminate.
+    injection E1 as <- _. eapply HS_adjAdd; eauto.
+Qed.
+
+Lemma HS_adjustLoop fuel : forall s o s' e, adjustLoop fuel s o = Ok (s', e) -> HS s s'.
+Proof.
+  induction fuel as [|fuel IH]; intros s o s' e H; [discriminate|]. cbn [adjustLoop] in H.
+  destruct (_ <=? 0); [apply ok_inv in H as [-> _]; apply HS_refl|].
+  destruct (adjRemoveMin s) as [[r s1]| |] eqn:E1; simpl in H; try discriminate.
+  pose proof (HS_adjRemoveMin _ _ _ E1) as G1. destruct r as [p|]; [|discriminate].
+  apply ebind_inv in H as (s2 & e2 & E2 & H).
+  assert (G2 : HS s1 s2).
+  { unfold lift in E2. destruct (inHeap s1 p) eqn:Ep.
+    - destruct (heapFix s1 p) as [s2'| |] eqn:Ef; simpl in E2; try discriminate. injection E2 as <- _.
+      destruct (heapFix_mem _ _ _ Ep Ef) as [O Hm]. apply HS_oh, O.
+    - simpl in E2. injection E2 as <- _. apply HS_refl. }
+  destruct H as [[-> H]|(_ & -> & _)]; [|eapply HS_trans; eauto].
+  apply ebind_inv in H as (s3 & e3 & E3 & H).
+  assert (G3 : HS s2 s3).
+  { refine (HS_efold _ _ _ _ _ _ E3). intros st c st' e' Hc. eapply HS_ensure; eauto. }
+  destruct H as [[-> H]|(_ & -> & _)]; [|eapply HS_trans; [exact G1|eapply HS_trans; eauto]].
+  apply ebind_inv in H as (s4 & e4 & E4 & H).
+  assert (G4 : HS s3 s4).
+  { destruct (nkind (nd s3 p)); try (apply ok_inv in E4 as [-> _]; apply HS_refl).
+    refine (HS_efold _ _ _ _ _ _ E4). intros st r st' e' Hc.
+    destruct (isNecessary (nd st r)); [eapply HS_ensure; eauto|apply ok_inv in Hc as [-> _]; apply HS_refl]. }
+  eapply HS_trans; [exact G1|]. eapply HS_trans; [exact G2|]. eapply HS_trans; [exact G3|].
+  eapply HS_trans; [exact G4|]. destruct H as [[-> H]|(_ & -> & _)]; [eapply IH; eauto|apply HS_refl].
+Qed.
+
+Lemma HS_adjustHeights fuel s oc op s' e : adjustHeights fuel s oc op = Ok (s', e) -> HS s s'.
+Proof.
+  unfold adjustHeights. intros H. apply ebind_inv in H as (s1 & e1 & E1 & H).
+  pose proof (HS_ensure _ _ _ _ _ _ E1) as G1.
+  assert (G0 : HS s s1) by (eapply HS_trans; [|exact G1]; apply HS_eq; reflexivity).
+  destruct H as [[-> H]|(_ & -> & _)]; [eapply HS_trans; [exact G0|eapply HS_adjustLoop; eauto]|exact G0].
+Qed.
+
+Lemma HS_heapAddIfNotPresent s n s' : heapAddIfNotPresent s n = Ok s' -> HS s s'.
+Proof. intros H. apply HS_oh, (only_heap_heapAddIfNotPresent _ _ _ H). Qed.
+
+(* [addChild] where nothing is invalid: the handler set is untouched *)
+Lemma addChild_handlers fuel s c p s' :
+  vclosed s -> valid (nd s p) = true -> invq s = [] ->
+  addChild fuel s c p = Ok (s', None) -> handlers s' = handlers s.
+Proof.
+  intros Hvc Hvp Hi H. unfold addChild in H.
+  apply ebind_inv in H as (s1 & e1 & E1 & [[-> H]|(Hne & _ & He)]); [|congruence].
+  assert (A1 : HS s s1 /\ invq s1 = []).
+  { unfold addChildWithoutAdjustingHeights in E1.
+    set (sa := link s c p) in *.
+    assert (Eb : (if valid (nd sa p) then sa else sa <| invq := invq sa ++ [c] |>) = sa).
+    { unfold sa. rewrite valid_nd_link, Hvp. reflexivity. }
+    rewrite Eb in E1.
+    assert (Ia : invq sa = []) by (unfold sa; rewrite invq_link; exact Hi).
+    destruct (isNecessary (nd s p)) eqn:Enp.
+    - apply ok_inv in E1 as [-> _]. split; [apply HS_eq; unfold sa; apply handlers_link|exact Ia].
+    - assert (Gb : gfr s sa) by apply gfr_link.
+      destruct (BN2 _ _ _ _ _ E1 (vclosed_gfr _ _ Gb Hvc) ltac:(unfold sa; rewrite valid_nd_link; exact Hvp) Ia) as (I1 & _).
+      split; [|exact I1]. eapply HS_trans; [apply HS_eq; unfold sa; apply handlers_link|].
+      apply HS_bn, (proj1 (BN_frame _ _ _ _ _ E1)). }
+  destruct A1 as (G1 & I1).
+  apply ebind_inv in H as (s2 & e2 & E2 & [[-> H]|(Hne & _ & He)]); [|congruence].
+  assert (G2 : HS s1 s2 /\ qfr s1 s2).
+  { destruct (_ >=? _); [split; [eapply HS_adjustHeights; eauto|eapply qfr_adjustHeights; eauto]|].
+    apply ok_inv in E2 as [-> _]. split; [apply HS_refl|apply qfr_refl]. }
+  destruct G2 as [G2 Q2].
+  apply ebind_inv in H as (s3 & e3 & E3 & [[-> H]|(Hne & _ & He)]); [|congruence].
+  apply lift_inv in E3 as [E3 _].
+  assert (Hi2 : invq s2 = []) by (rewrite (q_invq _ _ Q2); exact I1).
+  apply (propagateInvalidity_nil _ _ _ Hi2) in E3 as ->.
+  unfold HS in *. destruct (_ || _).
+  - apply lift_inv in H as [H _]. rewrite (HS_heapAddIfNotPresent _ _ _ H). congruence.
+  - apply ok_inv in H as [-> _]. congruence.
+Qed.
+
+(* tearing down: a handler is withdrawn exactly when its node leaves the graph *)
+Definition TH (s s' : state) : Prop :=
+  forall k, k ∈ handlers s' <-> k ∈ handlers s /\ ~ lost s s' k.
+
+Lemma TH_refl s : TH s s.
+Proof. intros k. split; [intros H; split; [exact H|intros [A B]; congruence]|tauto]. Qed.
+
+Lemma TH_trans s1 s2 s3 : sfr s1 s2 -> sfr s2 s3 -> TH s1 s2 -> TH s2 s3 -> TH s1 s3.
+Proof.
+  intros F1 F2 A B k. rewrite (B k), (A k). unfold lost. split.
+  - intros [[H1 H2] H3]. split; [exact H1|]. intros [X Y]. destruct (inGraph (nd s2 k)) eqn:E2; [apply H3|apply H2]; auto.
+  - intros [H1 H2]. split; [split; [exact H1|]|].
+    + intros [X Y]. apply H2. split; [exact X|]. destruct (inGraph (nd s3 k)) eqn:E3; [|reflexivity].
+      rewrite (sfr_reg _ _ k F2 E3) in Y. discriminate.
+    + intros [X Y]. apply H2. split; [exact (sfr_reg _ _ k F1 X)|exact Y].
+Qed.
+
+Lemma TH_same s s' : handlers s' = handlers s -> (forall k, inGraph (nd s' k) = inGraph (nd s k)) -> TH s s'.
+Proof. intros Hh Hg k. rewrite Hh. unfold lost. rewrite Hg. split; [intros H; split; [exact H|intros [A B]; congruence]|tauto]. Qed.
+
+Lemma TH_removeNode s p s' :
+  (inGraph (nd s p) = false -> p ∉ handlers s) -> removeNode s p = Ok s' -> TH s s'.
+Proof.
+  intros Hp H k. rewrite (handlers_removeNode _ _ _ H). unfold rm. rewrite elem_of_list_filter. unfold lost.
+  rewrite (inGraph_nd_removeNode _ _ _ H k). destruct (decide (k = p)) as [->|Hk].
+  - split; [intros [X _]; congruence|]. intros [X Y]. exfalso. destruct (inGraph (nd s p)) eqn:E; [apply Y; auto|exact (Hp eq_refl X)].
+  - split; [intros [_ X]; split; [exact X|intros [A B]; congruence]|intros [X _]; auto].
+Qed.
+
+Lemma TH_block fuel :
+  (forall s c s', removeParents fuel s c = Ok s' -> TH s s') ->
+  forall s p s', inGraph (nd s p) = true ->
+    (s1 <-! removeParents fuel (emit (EvUnnec p) s) p; removeNode s1 p) = Ok s' -> TH s s'.
+Proof.
+  intros IH1 s p s' Hg H. apply rbind_ok in H as (s1 & E & H).
+  pose proof (sfr_removeParents _ _ _ _ E) as F1. pose proof (sfr_removeNode _ _ _ H) as F2.
+  assert (F0 : sfr s (emit (EvUnnec p) s)) by apply sfr_emit.
+  apply (TH_trans s (emit (EvUnnec p) s) s' F0 (sfr_trans _ _ _ F1 F2)); [apply TH_same; reflexivity|].
+  pose proof (IH1 _ _ _ E) as T1.
+  apply (TH_trans _ s1 s' F1 F2 T1). apply (TH_removeNode s1 p s'); [|exact H].
+  intros Eg Hin. apply (T1 p) in Hin as [_ Hnl]. apply Hnl. split; [exact Hg|exact Eg].
+Qed.
+
+Lemma teardown_TH fuel :
+  (forall s c s', removeParents fuel s c = Ok s' -> TH s s') /\
+  (forall s p s', checkIfUnnecessary fuel s p = Ok s' -> TH s s').
+Proof.
+  induction fuel as [|fuel [IH1 IH2]].
+  - split; [intros s c s' H; discriminate|].
+    intros s p s'. rewrite checkIfUnnecessary_unfold.
+    destruct (isNecessary (nd s p)); [intros [= <-]; apply TH_refl|].
+    destruct (negb (inGraph (nd s p))); [intros [= <-]; apply TH_refl|]. discriminate.
+  - assert (H1 : forall s c s', removeParents (S fuel) s c = Ok s' -> TH s s').
+    { intros s c s' H. rewrite removeParents_S in H.
+      refine (proj2 (rfold_inv (fun l st => sfr s st /\ TH s st) _ _ s s' _ _ H)).
+      - split; [apply sfr_refl|apply TH_refl].
+      - intros p l' st st2 (F & T) Hc.
+        assert (F1 : sfr st (unlink st c p)) by apply sfr_unlink.
+        pose proof (sfr_checkIfUnnecessary _ _ _ _ Hc) as F2.
+        split; [eapply sfr_trans; [exact F|eapply sfr_trans; eauto]|].
+        apply (TH_trans s st st2 F (sfr_trans _ _ _ F1 F2) T).
+        apply (TH_trans st (unlink st c p) st2 F1 F2); [apply TH_same; [reflexivity|]|exact (IH2 _ _ _ Hc)].
+        intros k. unfold unlink. rewrite !(nd_upd_proj inGraph) by reflexivity. reflexivity. }
+    split; [exact H1|].
+    intros s p s'. rewrite checkIfUnnecessary_unfold.
+    destruct (isNecessary (nd s p)); [intros [= <-]; apply TH_refl|].
+    destruct (inGraph (nd s p)) eqn:Hg; simpl; [|intros [= <-]; apply TH_refl].
+    intros H. exact (TH_block (S fuel) H1 s p s' Hg H).
+Qed.
+
+Lemma not_has_unreg s k : ~ has s k -> inGraph (nd s k) = false.
+Proof. intros H. rewrite (not_has_nd _ _ H). reflexivity. Qed.
+
+(* [changeParent]: a handler is withdrawn exactly when its node leaves the graph *)
+Lemma changeParent_handlers fuel s c oR rt s' :
+  vclosed s -> match rt with Some r => valid (nd s r) = true | None => True end -> invq s = [] ->
+  changeParent fuel s c oR rt = Ok (s', None) ->
+  (forall k, k ∈ handlers s' -> k ∈ handlers s /\ (inGraph (nd s k) = true -> inGraph (nd s' k) = true)) /\
+  (forall k, k ∈ handlers s -> (inGraph (nd s k) = true /\ inGraph (nd s' k) = true) \/ ~ has s k -> k ∈ handlers s').
+Proof.
+  intros Hvc Hvr Hi H. unfold changeParent in H. destruct oR as [o|], rt as [r|].
+  - destruct (bool_decide (o = r)); [apply ok_inv in H as [-> _]; split; intros k Hk; tauto|].
+    set (u0 := unlink s c o) in *. set (u1 := upd u0 o (set forceNec (fun _ => true))) in *.
+    apply ebind_inv in H as (u2 & e2 & E2 & [[-> H]|(Hne & _ & He)]); [|congruence].
+    apply lift_inv in H as [H _]. set (u3 := upd u2 o (set forceNec (fun _ => false))) in *.
+    assert (F01 : sfr s u1).
+    { eapply sfr_trans; [apply sfr_unlink|]. apply sfr_upd. intros x. repeat split. }
+    assert (Hst1 : forall m, decl (nd u1 m) = decl (nd s m) /\ valid (nd u1 m) = valid (nd s m)).
+    { intros m. destruct (z_static _ _ F01 m) as (_ & ? & _ & ? & _). auto. }
+    assert (Hig1 : forall m, inGraph (nd u1 m) = inGraph (nd s m)).
+    { intros m. unfold u1, u0, unlink. rewrite !(nd_upd_proj inGraph) by reflexivity. reflexivity. }
+    assert (Hvr1 : valid (nd u1 r) = true) by (destruct (Hst1 r) as [_ ->]; exact Hvr).
+    destruct (addChild2 fuel u1 c r u2 (vclosed_static s u1 Hst1 Hvc) Hvr1 Hi E2) as (G12 & _).
+    pose proof (addChild_handlers fuel u1 c r u2 (vclosed_static s u1 Hst1 Hvc) Hvr1 Hi E2) as Hh12.
+    assert (Hig3 : forall m, inGraph (nd u3 m) = inGraph (nd u2 m)).
+    { intros m. unfold u3. rewrite (nd_upd_proj inGraph) by reflexivity. reflexivity. }
+    assert (Hh3 : handlers u3 = handlers s) by (change (handlers u2 = handlers s); rewrite Hh12; reflexivity).
+    pose proof (proj2 (teardown_TH fuel) _ _ _ H) as T.
+    assert (Hreg3 : forall k, inGraph (nd s k) = true -> inGraph (nd u3 k) = true).
+    { intros k Hk. rewrite Hig3. apply (g_reg _ _ G12). rewrite Hig1. exact Hk. }
+    assert (Hhas3 : forall k, has u3 k <-> has s k).
+    { intros k. unfold u3. rewrite has_upd, (g_has _ _ G12), (z_has _ _ F01). reflexivity. }
+    split.
+    + intros k Hk. apply (T k) in Hk as [Hk Hnl]. rewrite Hh3 in Hk. split; [exact Hk|].
+      intros Hg. destruct (inGraph (nd s' k)) eqn:E; [reflexivity|]. exfalso. apply Hnl. split; [apply Hreg3, Hg|exact E].
+    + intros k Hk Hc. apply (T k). rewrite Hh3. split; [exact Hk|]. intros [A B]. destruct Hc as [[_ C]|C]; [congruence|].
+      rewrite (not_has_unreg u3 k) in A; [discriminate|]. rewrite Hhas3. exact C.
+  - apply lift_inv in H as [H _]. pose proof (proj2 (teardown_TH fuel) _ _ _ H) as T.
+    assert (Hig0 : forall m, inGraph (nd (unlink s c o) m) = inGraph (nd s m)).
+    { intros m. unfold unlink. rewrite !(nd_upd_proj inGraph) by reflexivity. reflexivity. }
+    split.
+    + intros k Hk. apply (T k) in Hk as [Hk Hnl]. split; [exact Hk|].
+      intros Hg. destruct (inGraph (nd s' k)) eqn:E; [reflexivity|]. exfalso. apply Hnl. split; [rewrite Hig0; exact Hg|exact E].
+    + intros k Hk Hc. apply (T k). split; [exact Hk|]. intros [A B]. rewrite Hig0 in A. destruct Hc as [[_ C]|C]; [congruence|].
+      rewrite (not_has_unreg s k C) in A. discriminate.
+  - destruct (addChild2 fuel s c r s' Hvc Hvr Hi H) as (G & _).
+    pose proof (addChild_handlers fuel s c r s' Hvc Hvr Hi H) as Hh. rewrite Hh. split.
+    + intros k Hk. split; [exact Hk|apply (g_reg _ _ G)].
+    + intros k Hk _. exact Hk.
+  - apply ok_inv in H as [-> _]. split; intros k Hk; tauto.
+Qed.
+
 Lemma inval_opt_LQ fuel (o : option nid) l t u :
   (match o with Some _ => rfold (invalidateNode fuel) l t | None => Ok t end) = Ok u -> LQ t u.
 Proof.
@@ -1681,7 +1925,23 @@ Record bfr (s : state) (b : nat) (s' : state) : Prop := {
     (valid (nd s' m) = false /\ recomputedAt (nd s' m) = changedAt (nd s' m));
   bx_self : recomputedAt (nd s' b) = stabNum s /\ inGraph (nd s' b) = true;
   bx_edge : edge s b (S b);
-  bx_log : LQ s s'
+  bx_log : LQ s s';
+  bx_changed : changedAt (nd s' b) = stabNum s;
+  bx_regvalid : forall m, inGraph (nd s' m) = true -> valid (nd s m) = true;
+  (* the handler set: [b] and its observers join it; a queued handler is withdrawn exactly when its
+     node leaves the graph *)
+  bx_h1 : forall k, k ∈ handlers s' -> k = b \/ k ∈ observers (nd s' b) \/
+            (k ∈ handlers s /\ (inGraph (nd s k) = true -> inGraph (nd s' k) = true));
+  bx_h2 : forall k, k ∈ handlers s ->
+            (inGraph (nd s k) = true /\ inGraph (nd s' k) = true) \/ (~ has s k /\ (k < next s)%nat) -> k ∈ handlers s';
+  bx_h3 : b ∈ handlers s' /\ forall o, o ∈ observers (nd s' b) -> o ∈ handlers s';
+  (* who is queued, who has run, after the step *)
+  bx_queued : forall w, inHeap s' w = true -> inHeap s w = true \/ w = S b \/ inGraph (nd s w) = false;
+  bx_done : forall y, y <> b -> isDone s' y = true ->
+              inGraph (nd s' y) = false \/ (inGraph (nd s y) = true /\ isDone s y = true);
+  bx_parents : forall c p, inGraph (nd s c) = true -> inGraph (nd s' c) = true -> c <> S b ->
+                 (p ∈ parents (nd s' c) <-> p ∈ parents (nd s c));
+  bx_main : inGraph (nd s' (S b)) = true /\ b ∈ parents (nd s' (S b))
 }.
 
 Section Assemble.
@@ -2639,6 +2899,21 @@ Section Assemble.
     apply LQ_eq. destruct (tp_shape _ _ _ _ TPs) as (w & h & E). rewrite E. reflexivity.
   Qed.
 
+  Local Lemma C_h7 : handlers s7 = handlers s.
+  Proof.
+    change (handlers s3 = handlers s). destruct (if_fields _ _ _ (proj1 IF)) as (_&_&_&_&_&_&_&_&_&_&->&_). reflexivity.
+  Qed.
+  Local Lemma C_cp :
+    (forall k, k ∈ handlers t8 -> k ∈ handlers s7 /\ (inGraph (nd s7 k) = true -> inGraph (nd t8 k) = true)) /\
+    (forall k, k ∈ handlers s7 -> (inGraph (nd s7 k) = true /\ inGraph (nd t8 k) = true) \/ ~ has s7 k -> k ∈ handlers t8).
+  Proof. exact (changeParent_handlers fuel s7 (S b) (b_rhs r0) root t8 Hvc7 (match_opt_intro root _ Hvroot) Hinvq7 Ecp). Qed.
+  Local Lemma C_hu : handlers u = handlers t8. Proof. apply (is_handlers _ _ Hsame). Qed.
+  Local Lemma C_tail :
+    b ∈ handlers s' /\ (forall o, o ∈ observers (nd s' b) -> o ∈ handlers s') /\
+    (forall k, k ∈ handlers u -> k ∈ handlers s') /\
+    (forall k, k ∈ handlers s' -> k ∈ handlers u \/ k = b \/ k ∈ observers (nd u b)).
+  Proof. exact (EngineLocal.C13_changed_node_is_queued_for_handler u b s' None imm Htail). Qed.
+
   Lemma assemble_frame : bfr s b s'.
   Proof.
     constructor.
@@ -2652,6 +2927,32 @@ Section Assemble.
     - destruct U_b as (A & _ & B). split; [rewrite S'b; exact A|rewrite S'ingraph; exact B].
     - exact Hedge_bmain.
     - exact C_log.
+    - rewrite S'b. reflexivity.
+    - intros m Hm. apply (keep_valid m Hm).
+    - intros h Hhk. destruct C_tail as (A1 & A2 & A3 & A4). destruct (A4 h Hhk) as [Hu|[->|Ho]]; [|auto|].
+      + right. right. rewrite C_hu in Hu. destruct (proj1 C_cp h Hu) as [H7 Hr]. rewrite C_h7 in H7. split; [exact H7|].
+        intros Hg'. rewrite S'ingraph, U_ingraph. apply Hr. rewrite S7_ingraph. exact Hg'.
+      + right. left. rewrite (S'proj observers) by reflexivity. exact Ho.
+    - intros h Hhk Hc. destruct C_tail as (A1 & A2 & A3 & A4). apply A3. rewrite C_hu. apply (proj2 C_cp h).
+      + rewrite C_h7. exact Hhk.
+      + destruct Hc as [[H1 H2]|[H1 H2]].
+        * left. rewrite S7_ingraph. split; [exact H1|]. rewrite <- U_ingraph, <- S'ingraph. exact H2.
+        * right. intros H7. apply H1. unfold s7, s7_of in H7. rewrite has_upd in H7.
+          change (has s3 h) in H7. unfold has in H7. rewrite (if_old _ _ _ (proj1 IF) h) in H7 by (left; exact H2).
+          change (has s1' h) in H7. unfold s1' in H7. rewrite has_updb in H7. unfold s1 in H7. rewrite has_upd in H7. exact H7.
+    - destruct C_tail as (A1 & A2 & _). split; [exact A1|exact A2].
+    - exact queued_cases.
+    - exact done_old.
+    - exact S'parents.
+    - assert (Hgm : inGraph (nd s' (S b)) = true) by (rewrite S'ingraph; exact U_main).
+      split; [exact Hgm|]. apply (st_par _ HS' (S b) b Hgm).
+      rewrite (S'proj decl) by reflexivity. destruct (U_from3 (S b)) as (_ & _ & _ & _).
+      assert (Hd : decl (nd u (S b)) = b :: option_list root).
+      { destruct (is_node _ _ Hsame (S b)) as (_ & -> & _). destruct (c_static _ _ _ _ C8 (S b)) as (_ & -> & _).
+        unfold s7, s7_of. rewrite nd_upd_eq; [reflexivity|]. change (has s3 (S b)).
+        unfold has. rewrite (if_old _ _ _ (proj1 IF) (S b)) by (left; apply Hlt1; unfold s1'; rewrite has_updb; unfold s1; rewrite has_upd; exact Hhasmain).
+        change (has s1' (S b)). unfold s1'. rewrite has_updb. unfold s1. rewrite has_upd. exact Hhasmain. }
+      rewrite Hd. left.
   Qed.
 
   Lemma assemble : (LInvC s' imm /\ Tplain s') /\ imm = None /\ stabNum s' = stabNum s /\ CF s s' /\
